@@ -246,7 +246,6 @@ spif_mbuff_init_from_fp(spif_mbuff_t self, FILE *fp)
 spif_bool_t
 spif_mbuff_init_from_fd(spif_mbuff_t self, int fd)
 {
-    spif_byteptr_t p;
     off_t file_pos;
     spif_memidx_t file_size;
 
@@ -286,7 +285,7 @@ spif_mbuff_init_from_fd(spif_mbuff_t self, int fd)
         self->len = self->size = file_size;
         self->buff = (spif_byteptr_t) MALLOC(self->size);
 
-        if (read(fd, p, file_size) < 1) {
+        if (read(fd, self->buff, file_size) < 1) {
             FREE(self->buff);
             return FALSE;
         }
